@@ -30,6 +30,7 @@ func init() {
 	gens["Src_reverse.v"] = genGoLoopReverse
 	gens["Src_slashmw.v"] = genGoLoopSlash
 	gens["Src_ipextract.v"] = genGoLoopIP
+	gens["Src_csrfcmp.v"] = genGoLoopCSRFCompare
 }
 
 // innerHandler finds the innermost function literal of shape func(c echo.Context) error inside fd.
@@ -220,7 +221,7 @@ func (g *goliteCfg) expr(e ast.Expr) (string, error) {
 	case *ast.CallExpr:
 		n := lit(v)
 		fn := lit(v.Fun)
-		if (fn == "int64" || fn == "int" || fn == "int32" || (fn == "string" && g.loop)) && len(v.Args) == 1 {
+		if (fn == "int64" || fn == "int" || fn == "int32" || ((fn == "string" || fn == "[]byte") && g.loop)) && len(v.Args) == 1 {
 			return g.expr(v.Args[0])
 		}
 		if g.cells[n] {
@@ -1260,4 +1261,21 @@ func genGoLoopIP(repo string) (string, error) {
 		out += s
 	}
 	return out, nil
+}
+
+func genGoLoopCSRFCompare(repo string) (string, error) {
+	f, err := parseFile(repo, "middleware/csrf.go")
+	if err != nil {
+		return "", err
+	}
+	fd := findFunc(f, "", "validateCSRFToken")
+	if fd == nil {
+		return "", fmt.Errorf("validateCSRFToken not found")
+	}
+	s, err := goliteFunc(fd, "validate_csrf_token", goliteCfg{loop: true, ignore: map[string]bool{}, extern: map[string]bool{}, cells: map[string]bool{},
+		pure: map[string]bool{"subtle.ConstantTimeCompare": true, "len": true}})
+	if err != nil {
+		return "", err
+	}
+	return goloopHeader + "(* middleware/csrf.go: validateCSRFToken - the comparison of the cookie's token with a client token.  subtle.ConstantTimeCompare is pure\n   (1 for equal byte strings of equal length, else 0); []byte(s) is the string's bytes. *)\n" + s, nil
 }
